@@ -23,12 +23,7 @@ type FuncReport struct {
 func resolveGhosts(w *World) error {
 	vc := &VC{w: w}
 	for key, g := range w.ghostSrc {
-		var cf *ContractFile
-		for _, f := range w.files {
-			if f.PkgPath == g.Pkg {
-				cf = f
-			}
-		}
+		cf := g.CF
 		env := &Env{vc: vc, pkgPath: g.Pkg, cf: cf}
 		var st SType
 		err := func() (err error) {
@@ -54,12 +49,7 @@ func resolveGhosts(w *World) error {
 		if t.Pkg == "" {
 			continue
 		}
-		var cf *ContractFile
-		for _, f := range w.files {
-			if f.PkgPath == g.Pkg {
-				cf = f
-			}
-		}
+		cf := g.CF
 		env := &Env{vc: vc, pkgPath: g.Pkg, cf: cf}
 		func() {
 			defer func() { recover() }()
@@ -212,6 +202,31 @@ func (vc *VC) atReturn(fr *frame, st *State, vals []Value, ret *ssa.Return) {
 	if res.Len() == 1 {
 		env.vars["result"] = env.vars["result.0"]
 	}
+	// ghost assignments at return
+	for _, gs := range fc.GhostSets {
+		func() {
+			defer func() {
+				if r := recover(); r != nil {
+					if ee, ok := r.(evalError); ok {
+						vc.fail("ghostset %s: %s", gs.Src, ee.msg)
+					}
+					panic(r)
+				}
+			}()
+			env.heap = st.heap
+			ts := vc.locTargets(env, gs.Lhs)
+			if len(ts) != 1 || ts[0].whole {
+				efail("ghost assignment needs a single ghost field location")
+			}
+			if info, ok := vc.comps[ts[0].comp]; ok && !isGhostComp(vc, ts[0].comp) {
+				_ = info
+				efail("ghost assignment to a real field")
+			}
+			rhs := env.asTerm(env.eval(gs.Rhs))
+			vc.readLocRegister(ts[0].comp, rhs.Sort)
+			vc.writeCell(st, Loc{ts[0].comp, []Term{ts[0].idx}}, rhs)
+		}()
+	}
 	rn := ""
 	if n := vc.returnOrdinal(fr, ret); n > 0 {
 		rn = fmt.Sprintf("@ret%d", n)
@@ -246,6 +261,24 @@ func (vc *VC) returnOrdinal(fr *frame, ret *ssa.Return) int {
 // frameCheck: every component changed since entry is changed only at locations the modifies clause
 // allows, as far as previously allocated objects are concerned.
 func (vc *VC) frameCheck(fr *frame, st *State, rn string) {
+	for _, f := range vc.frameFormulas(fr, st, nil) {
+		if f.havoc {
+			vc.oblige(st, "frame", "frame.havoc"+rn, "an unspecified callee may modify anything", False)
+			return
+		}
+		vc.oblige(st, "frame", fmt.Sprintf("frame[%s]%s", f.short, rn), "modifies clause", f.t)
+	}
+}
+
+type frameFormula struct {
+	comp, short string
+	t           Term
+	havoc       bool
+}
+
+// frameFormulas states, for every component changed since entry (or listed in only), that it is
+// changed only where the modifies clause allows, on previously allocated objects.
+func (vc *VC) frameFormulas(fr *frame, st *State, only map[string]bool) (out []frameFormula) {
 	fc := vc.contract
 	entryEnv := &Env{vc: vc, heap: vc.entry, old: vc.entry, vars: fr.params, cf: vc.fileOf(fc), pkgPath: vc.pkgOf(fc)}
 	targets, err := vc.evalModifies(entryEnv, fc)
@@ -253,13 +286,15 @@ func (vc *VC) frameCheck(fr *frame, st *State, rn string) {
 		vc.fail("modifies: %v", err)
 	}
 	if st.heap.base != vc.base0 {
-		vc.oblige(st, "frame", "frame.havoc"+rn, "an unspecified callee may modify anything", False)
-		return
+		return []frameFormula{{havoc: true}}
 	}
 	alloc0 := vc.base0.alloc
 	r := Term{"r!", SInt}
 	for _, comp := range sortedKeys(st.heap.c) {
 		if comp == allocComp {
+			continue
+		}
+		if only != nil && !only[comp] {
 			continue
 		}
 		cur := st.heap.c[comp]
@@ -287,8 +322,9 @@ func (vc *VC) frameCheck(fr *frame, st *State, rn string) {
 			hyp = append(hyp, Ne(r, i))
 		}
 		short := comp[strings.LastIndex(comp, "/")+1:]
-		vc.oblige(st, "frame", fmt.Sprintf("frame[%s]%s", short, rn), "modifies clause", Forall([]Term{r}, Implies(And(hyp...), Eq(Select(cur, r), Select(orig, r)))))
+		out = append(out, frameFormula{comp: comp, short: short, t: Forall([]Term{r}, Implies(And(hyp...), Eq(Select(cur, r), Select(orig, r))), []Term{Select(cur, r)})})
 	}
+	return out
 }
 
 // resolveGuards turns the guard list of the monitor into component names.
@@ -362,4 +398,18 @@ func (vc *VC) obligeClause(env *Env, st *State, kind, name, suffix string, c Cla
 		}
 		vc.oblige(st, kind, n+suffix, c.Src, t)
 	}
+}
+
+
+func isGhostComp(vc *VC, comp string) bool {
+	for k := range vc.w.ghosts {
+		if strings.HasSuffix(comp, k[strings.LastIndex(k, ".")+1:]) && strings.HasPrefix(comp, k[:strings.LastIndex(k, ".")]) {
+			return true
+		}
+	}
+	return false
+}
+
+func (vc *VC) readLocRegister(comp string, valSort Sort) {
+	vc.registerComp(comp, compInfo{Sort: ArrSort(SInt, valSort), Depth: 1, Ghost: true})
 }
